@@ -878,6 +878,8 @@ UNITS = [
     ("task_timeout", ["Timeout.lean"], lambda src: __import__("timeout2lean").generate(src)),
     ("asyncio.locks (stdlib)", ["AsyncioLocks.lean"], lambda src: __import__("asynciolocks2lean").generate(src)),
     ("contextlib (stdlib)", ["Contextlib.lean"], lambda src: __import__("contextlib2lean").generate(src)),
+    ("asyncio.futures / asyncio.tasks (stdlib, pure-Python Future and Task)", ["AsyncioKernel.lean"],
+     lambda src: __import__("asynciokernel2lean").generate(src)),
     ("PriorityLock / PriorityTask lock layer", ["Lock.lean"], lambda src: __import__("lock2lean").generate(src)),
     ("CoroStart, _Continuation, coro_eager, cancelling", ["CoroStart.lean"], lambda src: __import__("corostart2lean").generate(src)),
     ("monitor.py: Monitor, BoundMonitor, GeneratorObject(Iterator)", ["Monitor.lean"],
